@@ -147,11 +147,12 @@ def change_basis_Qbfs_to_Pn(cs):
 
 
     """
-    if hasattr(cs, 'dtype'):
-        # array, initialize as array
+    if hasattr(cs, 'dtype') and cs.dtype.kind == 'f':
+        # floating point array, initialize as array
         bs = np.empty_like(cs)
     else:
-        # iterable input
+        # iterable input, or an array of integers (for which empty_like
+        # would truncate the b_m to integers)
         bs = np.empty(len(cs), dtype=config.precision)
 
     M = len(bs)-1
